@@ -376,6 +376,32 @@ class CFGBuilder:
         return pending
 
     # ------------------------------------------------------------- inlining
+    def _contextmanager_target(self, ce: ast.AST) -> Optional[FunctionInfo]:
+        """The generator behind `with helper(...)`, when helper is a later-introduced @contextmanager function with exactly
+        one `yield` statement and no `return`."""
+        if not isinstance(ce, ast.Call):
+            return None
+        c = self._pre.get(id(ce)) or self.prog.resolve_call(ce, self.fn)
+        if c is None or c.kind != "func" or len(c.funcs) != 1:
+            return None
+        t = c.funcs[0]
+        if self.prog.is_known(t) or isinstance(t.node, ast.Lambda):
+            return None
+        if not any(d.split(".")[-1] == "contextmanager" for d in t.decorators):
+            return None
+        if t.qname in self._inline_stack or len(self._inline_stack) > 3:
+            return None
+        own = [x for x in ast.walk(t.node)]
+        ys = [x for x in own if isinstance(x, (ast.Yield, ast.YieldFrom))]
+        if len(ys) != 1 or not isinstance(ys[0], ast.Yield):
+            return None
+        if any(isinstance(x, ast.Return) for x in own) or any(isinstance(x, (ast.FunctionDef, ast.Lambda)) and x is not t.node for x in own):
+            return None
+        # the yield must be an expression STATEMENT
+        if not any(isinstance(x, ast.Expr) and x.value is ys[0] for x in own):
+            return None
+        return t
+
     def _inline_target(self, c: Optional[Callee]) -> Optional[FunctionInfo]:
         """A helper that did not exist when the rules were written is transparent: its body is analysed in place."""
         if c is None or c.kind != "func" or len(c.funcs) != 1:
@@ -389,7 +415,9 @@ class CFGBuilder:
             return None
         return t
 
-    def _inline(self, call: ast.Call, t: FunctionInfo, marker: int, stmt: ast.AST, as_cond: bool = False):
+    def _instantiate(self, call: ast.Call, t: FunctionInfo) -> Tuple[List[ast.stmt], List[Tuple[str, ast.AST]]]:
+        """A private copy of helper t's body for this call site: calls resolved in the helper's own context, locals
+        alpha-renamed, parameters substituted (alias) or bound (returned as (name, argument) pairs)."""
         import copy
         self._inl_n += 1
         k = self._inl_n
@@ -448,6 +476,10 @@ class CFGBuilder:
                     x.id = x.id + sfx
                 elif isinstance(x, ast.ExceptHandler) and x.name in local_names:
                     x.name = x.name + sfx
+        return body, binds
+
+    def _inline(self, call: ast.Call, t: FunctionInfo, marker: int, stmt: ast.AST, as_cond: bool = False):
+        body, binds = self._instantiate(call, t)
         pending: Pending = [(marker, "norm")]
         for nm, arg in binds:
             b = ast.Assign(targets=[ast.Name(id=nm, ctx=ast.Store())], value=arg)
@@ -772,6 +804,70 @@ class CFGBuilder:
             cache = self.__dict__.setdefault("_synth", {})
             tr = cache.setdefault(key, tr)
             return self._try(tr, pending)
+        cm = self._contextmanager_target(ce)
+        if cm is not None:
+            # `with helper(...) [as v]: BODY` for a @contextmanager generator introduced after the rules were written:
+            # the helper's body runs in place, its single `yield x` statement replaced by `v = x; BODY` (exceptions of BODY
+            # surface at the yield, so the helper's try/finally / try/except wrap BODY exactly as at run time)
+            key = ("cm", id(st), id(it))
+            cache = self.__dict__.setdefault("_synth", {})
+            if key not in cache:
+                body, binds = self._instantiate(ce, cm)  # type: ignore[arg-type]
+                pre: List[ast.stmt] = []
+                for nm, arg in binds:
+                    b = ast.Assign(targets=[ast.Name(id=nm, ctx=ast.Store())], value=arg)
+                    ast.copy_location(b, ce)
+                    ast.fix_missing_locations(b)
+                    pre.append(b)
+                inner_body: List[ast.stmt]
+                if len(items) > 1:
+                    w = ast.With(items=items[1:], body=st.body)  # type: ignore[attr-defined]
+                    ast.copy_location(w, st)
+                    inner_body = [w]
+                else:
+                    inner_body = list(st.body)  # type: ignore[attr-defined]
+
+                def subst(stmts: List[ast.stmt]) -> bool:
+                    for i, x in enumerate(stmts):
+                        if isinstance(x, ast.Expr) and isinstance(x.value, ast.Yield):
+                            repl: List[ast.stmt] = []
+                            if it.optional_vars is not None:
+                                val = x.value.value if x.value.value is not None else ast.Constant(value=None)
+                                a = ast.Assign(targets=[it.optional_vars], value=val)
+                                ast.copy_location(a, st)
+                                ast.fix_missing_locations(a)
+                                repl.append(a)
+                            stmts[i:i + 1] = repl + inner_body
+                            return True
+                        for fld in ("body", "orelse", "finalbody"):
+                            sub = getattr(x, fld, None)
+                            if isinstance(sub, list) and sub and isinstance(sub[0], ast.stmt) and subst(sub):
+                                return True
+                        for h in getattr(x, "handlers", []) or []:
+                            if subst(h.body):
+                                return True
+                    return False
+
+                ok = subst(body)
+                cache[key] = (pre + body) if ok else None
+            synth = cache[key]
+            if synth is not None:
+                # the call itself stays visible (call graph / call sites), marked as inlined
+                for a in ce.args:  # type: ignore[attr-defined]
+                    pending = self.expr(a.value if isinstance(a, ast.Starred) else a, pending, st)
+                for kw in ce.keywords:  # type: ignore[attr-defined]
+                    pending = self.expr(kw.value, pending, st)
+                cn = self.new("call", ce, st)
+                self.g.nodes[cn].callee = self._pre.get(id(ce)) or self.prog.resolve_call(ce, self.fn)  # type: ignore[arg-type]
+                self.g.nodes[cn].flags.add("inlined")
+                self.connect(pending, cn)
+                pending = [(cn, "norm")]
+                self.g.inlined_calls[id(ce)] = cm
+                self._inline_stack.append(cm.qname)
+                try:
+                    return self.stmts(synth, pending)
+                finally:
+                    self._inline_stack.pop()
         pending = self.expr(it.context_expr, pending, st)
         enter = self.new("with_enter", it, st)
         self.connect(pending, enter)
